@@ -14,7 +14,7 @@ The model is `Pose/Model/Batch.lean`; `Pose/Gen/*.lean` are regenerated from `/r
 Not covered by an item-wise THEOREM (they do not go through the modelled `binop` site; batched = item-wise is decided for them by
 the `regime` / `unary` / `large` streams against the same call on single items): `matrix`, `Jr`, `euler`, `rotation` /
 `translation` / `scale`, the conversions of `convert.py`, `cumops` (C12).  `Retr` and the algebra's `add` are covered below.
-Views: slices, `select` and `expand` have theorems (section "views are transparent"); `permute` / `transpose` views do not.
+Views: slices, `select`, `expand` and `permute` / `transpose` have theorems (section "views are transparent").
 -/
 namespace PP.Batch
 
@@ -501,8 +501,8 @@ An operand that is a VIEW reaches the op as base storage + offset + strides (`Vi
 (`broadcast_inputs`: `expand(...).reshape(-1, d).contiguous()`).  The theorems: `.contiguous()` of ANY view holds exactly the viewed
 items in row-major order; torch's stride rules for slices (`X[a:b:c]`, `narrow`), `select` (`X[k]`) and `expand` address exactly the
 items the index maps of the shape-only functions (`Step.index`, `proj`) name.  So an op on such a view is the op on the gathered
-items, to which `broadcast_itemwise` etc. apply.  NOT covered by a theorem: `permute` / `transpose` views (stride permutation) — the
-harness's `perm` view layout stays a correspondence check. -/
+items, to which `broadcast_itemwise` etc. apply.  `permute` / `transpose` / `movedim` views: `view_permute` (pass 10), for a permutation
+given as a `List.Perm` of `0 … rank-1`. -/
 
 /-- a contiguous tensor, addressed through its own row-major strides, is itself -/
 theorem view_of_contiguous {α : Type} (t : T α) (i : List Nat) (h : inb t.shape i) : (View.ofT t).get i = t.get i :=
@@ -556,12 +556,54 @@ theorem slice_then_contiguous {α : Type} (x : T α) (dim start step len : Nat) 
     exact h1
   rw [contiguous_of_view _ _ (by simpa [View.slice, View.ofT] using hi), view_slice _ _ _ _ _ _ hlen, view_of_contiguous _ _ hx]
 
+/-- **`permute` / `transpose` / `movedim` views are index permutations**: for a permutation `p` of the dimensions (given as a list that is a
+`List.Perm` of `0 … rank-1`) the view with permuted strides addresses at `i` the item `v` addresses at `unpermute p i` (`j[p[k]] = i[k]`) —
+the index map of `Step.permute` -/
+theorem view_permute {α : Type} (v : View α) (p i : List Nat) (hp : p.Perm (List.range v.strides.length)) (hi : i.length = p.length) :
+    (v.permute p).get i = v.get (unpermute p i) := by
+  simp only [View.permute, View.get, dot_permute p i v.strides hp hi]
+
+/-- **`permute` views = the handled function `permute`, under the model's own acceptance test**: whenever `Step.permute p` is accepted on the
+view's lshape (`isPerm`, the boolean test of the model of the shape-only functions), the view with permuted strides has the step's
+output lshape and addresses at every index of full rank the item the step's index map names — no further hypothesis on `p` -/
+theorem view_permute_step {α : Type} (v : View α) (hv : v.strides.length = v.shape.length) (p : List Nat) (s' : Shape) (g : List Nat → List Nat)
+    (h : Step.apply v.shape (.permute p) = some (s', g)) (i : List Nat) (hi : i.length = p.length) :
+    (v.permute p).shape = s' ∧ (v.permute p).get i = v.get (g i) := by
+  simp only [Step.apply] at h
+  split at h
+  · rename_i hp
+    simp only [Option.some.injEq, Prod.mk.injEq] at h
+    refine ⟨by simpa [View.permute] using h.1, ?_⟩
+    rw [← h.2]
+    exact view_permute v p i (hv ▸ isPerm_perm hp) hi
+  · simp at h
+
+/-- the chain the harness exercises with its `perm` layout: a permuted view of a contiguous tensor, made contiguous for the op, holds the
+items of the tensor at the permuted positions -/
+theorem permute_then_contiguous {α : Type} (x : T α) (p i : List Nat) (hp : isPerm p x.shape.length = true)
+    (hi : inb (p.map (fun a => x.shape.getD a 0)) i) (hx : inb x.shape (unpermute p i)) :
+    ((View.ofT x).permute p).contiguous.get i = x.get (unpermute p i) := by
+  have h2 : (cstrides x.shape).length = x.shape.length := by
+    generalize x.shape = s
+    induction s with
+    | nil => rfl
+    | cons _ _ ih => simp [cstrides, ih]
+  have hlen : i.length = p.length := by simpa using inb_length hi
+  have hshape : ((View.ofT x).permute p).shape = p.map (fun a => x.shape.getD a 0) := rfl
+  rw [contiguous_of_view _ _ (by rw [hshape]; exact hi),
+    view_permute _ _ _ (by simpa [View.ofT, h2] using isPerm_perm hp) hlen, view_of_contiguous _ _ hx]
+
 /-! non-vacuity: `x` of lshape (4, 3) with items numbered row-major; `x[1::2]` at (1, 2) is item (3, 2) = 11; `x[:, 1]` at (2) is item
 (2, 1) = 7; a (1, 3) tensor expanded to (2, 2, 3) at (1, 1, 2) is item (0, 2) = 2 -/
 example : (((View.ofT (⟨[4, 3], id⟩ : T Nat)).slice 0 1 2 2).contiguous.get [1, 2]) = 11 := by decide
 example : inb ([4, 3].set 0 2) [1, 2] ∧ inb [4, 3] ([1, 2].modify 0 (fun j => 1 + j * 2)) := by simp [inb, List.modify]
 example : (((View.ofT (⟨[4, 3], id⟩ : T Nat)).select 1 1).contiguous.get [2]) = 7 := by decide
 example : (((View.ofT (⟨[1, 3], id⟩ : T Nat)).expand [2, 2, 3]).contiguous.get [1, 1, 2]) = 2 := by decide
+/-! `x.transpose(0, 1)` of lshape (4, 3) at (2, 1) is item (1, 2) = 5; `movedim(0, -1)` of (2, 3, 4) (p = [1, 2, 0]) at (2, 3, 1) is item (1, 2, 3) = 23;
+the hypotheses of `view_permute` / `permute_then_contiguous` hold for them -/
+example : (((View.ofT (⟨[4, 3], id⟩ : T Nat)).permute [1, 0]).contiguous.get [2, 1]) = 5 := by decide
+example : (((View.ofT (⟨[2, 3, 4], id⟩ : T Nat)).permute [1, 2, 0]).contiguous.get [2, 3, 1]) = 23 := by decide
+example : [1, 2, 0].Perm (List.range 3) ∧ [1, 0].Perm (List.range 2) ∧ isPerm [1, 2, 0] 3 = true ∧ unpermute [1, 2, 0] [2, 3, 1] = [1, 2, 3] := by decide
 
 /-! ## `retain_ltype` / `func.jacrev`
 
